@@ -11,14 +11,15 @@ LOGIC = "pysmt.logics.Logic"
 EXPLANATION = (
     "Static analysis of pysmt/oracles.py and pysmt/logics.py: for every operator whose result sort "
     "or payload sort needs a theory feature that no operand guarantees, the TheoryOracle handler "
-    "sets that feature (R1, table rule over the handler table + flag-domain interpretation); the "
-    "order axioms of Theory.__le__/__eq__/combine, decomposed by read-set into independent flag "
-    "groups, hold exhaustively on all flag valuations that satisfy the class invariant (R2); no two "
+    "sets that feature (R1, table rule over the handler table); TheoryOracle interpreted on operator "
+    "skeletons reports every feature the skeleton uses (R1d); no two "
     "named logics share (theory, quantifier-freeness) (R3); get_closer_logic returns a minimal "
     "element of {l | target <= l} with a deterministic tie-break and most_generic_logic the unique "
     "maximum (R4, comprehension predicates in relational normal form); callers obtain the logic they "
     "label with through these functions only (R5).")
-NOT_DECIDED = ["minimality for every subset of supported-logic lists is a consequence of R2+R4, not separately enumerated"]
+NOT_DECIDED = ["the partial-order axioms of Theory.__le__/combine over all flag valuations (pinned by the test-suite; "
+               "independent seeded changes there were all caught by existing tests)",
+               "minimality for every subset of supported-logic lists beyond the relational form of the selection (R4)"]
 
 # operator -> (feature flags its result/payload requires that operands do not imply, how the
 # handler may establish them: attribute stores or helper calls)
